@@ -8,7 +8,7 @@ import ast
 import re
 
 from ..engine import Analysis
-from ..model import AnalysisError, FuncInfo, dotted, norm, walk_own, parents, kwarg, is_within
+from ..model import AnalysisError, FuncInfo, dotted, norm, walk_own, parents, kwarg, is_within, shape, always_raises
 from ..report import Collector
 from . import prop
 
@@ -76,10 +76,23 @@ def retokenise_rule(A: Analysis, col: Collector, rule: str):
     A.anchor("split_cmd(...) in ShellTask._format_arg", sinks)
     # split_cmd itself re-tokenises with shlex
     sc = A.func(SPLIT_CMD)
-    if any("shlex.split" in A.callee_names(c, sc) for c in A.calls(sc)):
-        col.ok(rule, "split_cmd tokenises its argument with shlex.split (the sink of the taint rule)", A.loc(sc.node))
+    lexers = [c for c in A.calls(sc) if "shlex.shlex" in A.callee_names(c, sc)]
+    if any("shlex.split" in A.callee_names(c, sc) for c in A.calls(sc)) and not lexers:
+        col.ok(rule, "split_cmd tokenises its argument with shlex.split (the sink of the taint rule; shlex.split disables comment characters)", A.loc(sc.node))
+    elif lexers:
+        # a hand-built lexer keeps shlex's defaults: commenters='#', and without whitespace_split punctuation splits words
+        def _sets(attr, pred):
+            return any(isinstance(n, ast.Assign) and any(isinstance(t, ast.Attribute) and t.attr == attr for t in n.targets) and pred(n.value) for n in walk_own(sc.node))
+
+        no_comments = _sets("commenters", lambda v: isinstance(v, ast.Constant) and v.value == "")
+        ws_split = _sets("whitespace_split", lambda v: isinstance(v, ast.Constant) and v.value is True) or any(kwarg(c, "punctuation_chars") is not None for c in lexers)
+        if no_comments and ws_split:
+            col.ok(rule, "split_cmd tokenises with a shlex.shlex lexer configured like shlex.split (commenters='', whitespace_split=True)", A.loc(lexers[0]))
+        else:
+            missing = [m for m, ok_ in (("commenters = ''", no_comments), ("whitespace_split = True", ws_split)) if not ok_]
+            col.fail(rule, sc.qualname, "tokeniser-not-configured-like-shlex.split:" + "+".join(m.split(" ")[0] for m in missing), f"split_cmd builds its own `{norm(lexers[0], 40)}` without {missing}: with shlex's defaults a `#` in a field value starts a comment, so the value is cut there and everything after it in the argument string is dropped", A.loc(lexers[0]))
     else:
-        col.ok(rule, "split_cmd no longer tokenises with shlex.split", A.loc(sc.node))
+        raise AnalysisError("C23: split_cmd no longer tokenises with shlex.split or a shlex.shlex lexer (anchor moved)")
     tainted = _tainted_names(fa)
     # the variables that reach the sink
     sink_vars = set()
@@ -127,6 +140,43 @@ def retokenise_rule(A: Analysis, col: Collector, rule: str):
             f"{len(nodes)} flow(s): field value `{root}` is inserted into a command string by {kind} (`{norm(nodes[0], 50)}`) without shlex.quote and the string is then re-tokenised by split_cmd/shlex.split: a value containing spaces, quotes or backslashes does not reach the command as supplied",
             A.loc(nodes[0]),
         )
+    # a string into which a field value was inserted must not be used as a *template*: str.format would
+    # parse the value's braces ({other} is replaced by another field's value, a lone { raises)
+    value_strings = set()
+    for n in walk_own(fa.node):
+        if isinstance(n, ast.Assign) and isinstance(n.targets[0], ast.Name):
+            ins = [k for k in ast.walk(n.value) if (isinstance(k, ast.Call) and dotted(k.func) == "str" and k.args and {y.id for y in ast.walk(k.args[0]) if isinstance(y, ast.Name)} & set(tainted)) or (isinstance(k, ast.FormattedValue) and {y.id for y in ast.walk(k.value) if isinstance(y, ast.Name)} & set(tainted))]
+            if ins:
+                value_strings.add(n.targets[0].id)
+    n_templ = 0
+    for c in A.calls(fa):
+        is_fmt_helper = any(q.endswith("argstr_formatting") for q in A.callee_names(c, fa))
+        is_format = isinstance(c.func, ast.Attribute) and c.func.attr in ("format", "format_map")
+        if not (is_fmt_helper or is_format):
+            continue
+        n_templ += 1
+        templ = c.args[0] if is_fmt_helper and c.args else (c.func.value if is_format else None)
+        if isinstance(templ, ast.Name) and templ.id in value_strings:
+            col.fail(rule, fa.qualname, "value-parsed-as-format-template", f"`{norm(c, 60)}`: `{templ.id}` already contains the field's value (inserted with str()/f-string) and is then used as the format template: a value such as '{{other}}' is replaced by the value of field `other`, an unknown name by '', and a lone '{{' raises ValueError", A.loc(c))
+        else:
+            col.ok(rule, f"`{norm(c, 50)}`: the format template is the developer's argstr, values enter only as format arguments", A.loc(c))
+    if n_templ < 2:
+        raise AnalysisError("C23: argstr_formatting call sites in _format_arg not found (anchor moved)")
+    # clean-up of emptied optional parts runs over the formatted string, i.e. over the values as well
+    af = A.func(f"{TEMPL}.argstr_formatting")
+    col.scope(af.qualname)
+    fmt_vars = {n.targets[0].id for n in walk_own(af.node) if isinstance(n, ast.Assign) and isinstance(n.targets[0], ast.Name) and any(isinstance(k, ast.Call) and isinstance(k.func, ast.Attribute) and k.func.attr == "format" for k in ast.walk(n.value))}
+    edits = [c for c in A.calls(af) if isinstance(c.func, ast.Attribute) and c.func.attr == "replace" and len(c.args) == 2 and all(isinstance(a, ast.Constant) for a in c.args) and {y.id for y in ast.walk(c.func.value) if isinstance(y, ast.Name)} & fmt_vars]
+    if edits:
+        pats = sorted({a.args[0].value for a in edits})
+        col.fail(rule, af.qualname, f"cleanup-edits-formatted-values:x{len(pats)}", f"argstr_formatting removes {pats} from the string AFTER the values were formatted into it: the same sequences inside a field value are removed too ('a[,b,]c' reaches the command as 'a[b]c')", A.loc(edits[0]))
+    else:
+        col.ok(rule, "argstr_formatting does not edit the string after the values were formatted into it", A.loc(af.node))
+    # any other tokeniser applied to the built argument string in _format_arg
+    built = set(sink_vars) | set(tainted)
+    for c in A.calls(fa):
+        if isinstance(c.func, ast.Attribute) and c.func.attr in ("split", "rsplit", "splitlines") and isinstance(c.func.value, ast.Name) and c.func.value.id in built:
+            col.fail(rule, fa.qualname, f"value->str.{c.func.attr}", f"`{norm(c, 50)}` tokenises the built argument string with str.{c.func.attr}(), which splits at every Unicode whitespace character (U+00A0, U+3000, U+2028, \\x0b, \\x1c-\\x1f ...) where the POSIX lexer only splits at space, tab, CR and LF: values that used to arrive intact are cut", A.loc(c))
     col.notes["tainted_locals"] = sorted(tainted)
     col.notes["taint_exclusions"] = {
         "fld.argstr / fld.sep": "developer-supplied templates, not user values",
@@ -436,8 +486,8 @@ def check_c25(A: Analysis, col: Collector):
 @prop(
     "C26",
     technique="path-shape rule on template_update_single (every template-derived return is cache_dir / <x>.name) + def-use of the cache_dir argument at the call sites on the job path + ordering of the explicit-value return",
-    decides="(a) in template_update_single a template-derived value is re-rooted as cache_dir / <value>.name for both the list and the scalar form under the guard `cache_dir and value is not None`, and every call site on the job path (Job.inputs via template_update, ShellOutputs._resolve_value) passes cache_dir derived from the job's cache_dir (cmdline deliberately uses the cwd); (b) an explicitly supplied Path/list value is returned before any template formatting.",
-    not_decided="extension handling (keep_extension), determinism of str.format, names such as '..' inside a template (only .name is kept, which drops directories).",
+    decides="(a) in template_update_single a template-derived value is re-rooted as cache_dir / <value>.name for both the list and the scalar form under the guard `cache_dir and value is not None`, and every call site on the job path (Job.inputs via template_update, ShellOutputs._resolve_value) passes cache_dir derived from the job's cache_dir (cmdline deliberately uses the cwd); (b) an explicitly supplied Path/list value is returned before any template formatting; (c) the re-rooting rejects the names '..' and '' (Path('x/..').name == '..'); (d) the keep-extension decision reads the template outside its placeholders and keep_extension only.",
+    not_decided="the extension arithmetic itself (which part of a multi-dot name is the extension), determinism of str.format, dependence of a cached result's path on the input file's name (the file name is not part of a FileSet's hash: reported by a seeding agent, third-party serializer, not decided).",
     level_note="Trusted: pathlib semantics of `/` and `.name`.",
 )
 def check_c26(A: Analysis, col: Collector):
@@ -456,12 +506,44 @@ def check_c26(A: Analysis, col: Collector):
     guards = [n for n in walk_own(fn.node) if isinstance(n, ast.If) and "cache_dir" in norm(n.test) and var in norm(n.test)]
     if not guards:
         col.fail("C26.reroot", fn.qualname, "no-rerooting", "the formatted template is never re-rooted into cache_dir", A.loc(fn.node))
+    def _is_reroot(expr, cd_name):
+        return isinstance(expr, ast.BinOp) and isinstance(expr.op, ast.Div) and norm(expr.left) == cd_name and isinstance(expr.right, ast.Attribute) and expr.right.attr == "name"
+
+    def _rejects_special_names(scope_node) -> bool:
+        """a guard whose every path raises and whose test compares `<x>.name` with '..' (and '')"""
+        for n_ in ast.walk(scope_node):
+            if isinstance(n_, ast.If) and always_raises(n_.body):
+                consts = {k.value for k in ast.walk(n_.test) if isinstance(k, ast.Constant) and isinstance(k.value, str)}
+                on_name = any(isinstance(k, ast.Attribute) and k.attr in ("name", "parts") for k in ast.walk(n_.test))
+                if on_name and ".." in consts and "" in consts:
+                    return True
+        return False
+
     for g in guards:
         forms = {"list": False, "scalar": False}
+        special_ok = {"list": False, "scalar": False}
         for n in ast.walk(g):
-            if isinstance(n, ast.BinOp) and isinstance(n.op, ast.Div) and norm(n.left) == "cache_dir" and isinstance(n.right, ast.Attribute) and n.right.attr == "name":
-                inside_comp = any(isinstance(p, (ast.ListComp, ast.GeneratorExp)) for p in parents(n) if is_within(p, g))
-                forms["list" if inside_comp else "scalar"] = True
+            form = None
+            if _is_reroot(n, "cache_dir"):
+                form = "list" if any(isinstance(p, (ast.ListComp, ast.GeneratorExp)) for p in parents(n) if is_within(p, g)) else "scalar"
+                forms[form] = True
+                special_ok[form] = special_ok[form] or _rejects_special_names(g)
+            elif isinstance(n, ast.Call) and any(norm(a) == "cache_dir" for a in list(n.args) + [k.value for k in n.keywords]):
+                # a helper that does the re-rooting: every return is <its cache-dir parameter> / <path>.name
+                for h in [t for t in A.rs.resolve_call(n, fn).repo_targets if isinstance(t, FuncInfo) and t.module is fn.module]:
+                    pos = next((i for i, a in enumerate(n.args) if norm(a) == "cache_dir"), None)
+                    kwn = next((k.arg for k in n.keywords if norm(k.value) == "cache_dir"), None)
+                    hp = [p_.arg for p_ in h.params()]
+                    cdp = kwn or (hp[pos] if pos is not None and pos < len(hp) else None)
+                    rets_h = [r for r in walk_own(h.node) if isinstance(r, ast.Return)]
+                    if cdp and rets_h and all(_is_reroot(r.value, cdp) for r in rets_h):
+                        form = "list" if any(isinstance(p, (ast.ListComp, ast.GeneratorExp)) for p in parents(n) if is_within(p, g)) else "scalar"
+                        forms[form] = True
+                        special_ok[form] = special_ok[form] or _rejects_special_names(h.node)
+                        col.scope(h.qualname)
+        for k, v in forms.items():
+            if v and not special_ok[k]:
+                col.fail("C26.reroot", fn.qualname, f"dotdot-name-not-rejected:{k}", f"the {k} form re-roots the formatted template as cache_dir / <path>.name without rejecting the names '..' and '': Path('x/..').name == '..', so a string input ending in '..' resolves to the PARENT of the job directory (and '' to the job directory itself)", A.loc(g))
         for k, v in forms.items():
             if v:
                 col.ok("C26.reroot", f"{k} form: the template-derived path is replaced by cache_dir / <path>.name", A.loc(g))
@@ -477,6 +559,38 @@ def check_c26(A: Analysis, col: Collector):
         col.ok("C26.reroot", f"the value returned is `{var}` after the re-rooting block", A.loc(rets[0]))
     else:
         col.fail("C26.reroot", fn.qualname, "return-before-reroot", "the template-derived value is returned before / without the re-rooting block", A.loc(fn.node))
+    # (c) the decision whether the input file's extension is appended depends on the template text outside
+    # its placeholders and on keep_extension only -- not on formatted values, and not on a '.' inside a
+    # format spec such as {n:.2f}
+    ef = A.func(f"{TEMPL}._element_formatting")
+    col.scope(ef.qualname)
+    eparams = [p_.arg for p_ in ef.params()]
+    tparam = eparams[0]
+    value_vars = {eparams[1]}
+    changed = True
+    while changed:
+        changed = False
+        for n in walk_own(ef.node):
+            if isinstance(n, ast.Assign) and isinstance(n.targets[0], ast.Name) and n.targets[0].id not in value_vars:
+                if any(isinstance(k, ast.Name) and k.id in value_vars for k in ast.walk(n.value)) or any(isinstance(k, ast.Call) and isinstance(k.func, ast.Attribute) and k.func.attr == "format" for k in ast.walk(n.value)):
+                    value_vars.add(n.targets[0].id)
+                    changed = True
+    dot_tests = []
+    for n in walk_own(ef.node):
+        if isinstance(n, ast.Compare) and isinstance(n.left, ast.Constant) and n.left.value == "." and len(n.ops) == 1 and isinstance(n.ops[0], (ast.In, ast.NotIn)) and any(isinstance(p_, ast.If) and is_within(n, p_.test) for p_ in parents(n)):
+            dot_tests.append(n)
+    A.anchor("`'.' [not] in <template>` test in _element_formatting", dot_tests)
+    for t in dot_tests:
+        e = t.comparators[0]
+        names = {k.id for k in ast.walk(e) if isinstance(k, ast.Name)}
+        if names & value_vars:
+            col.fail("C26.extension", ef.qualname, "extension-decision-depends-on-formatted-values", f"`{norm(t)}` decides whether the input file's extension is kept by looking at a formatted value: another referenced input that formats with a dot (1.5, 'v1.2') makes the extension disappear although keep_extension is declared", A.loc(t))
+        elif isinstance(e, ast.Name) and e.id == tparam:
+            col.fail("C26.extension", ef.qualname, "format-spec-dot-counts-as-extension", f"`{norm(t)}` looks for a '.' in the raw template, placeholders included: the dot of a format spec such as {{n:.2f}} counts as the template's own extension, and the input file's extension is dropped although keep_extension is declared", A.loc(t))
+        elif tparam in names:
+            col.ok("C26.extension", f"`{norm(t, 70)}`: the template's own extension is looked for outside its placeholders", A.loc(t))
+        else:
+            col.fail("C26.extension", ef.qualname, f"extension-decision-reads:{shape(e, 40)}", f"`{norm(t)}` does not look at the template", A.loc(t))
     # (b) explicit value precedes formatting
     early = []
     for n in walk_own(fn.node):
